@@ -545,6 +545,19 @@ impl Sim {
             self.trace.push(format!("{} {:?}", self.nodes[i].id, c));
         }
         self.rec.put(&o, &meta);
+        // has_ready is a pure function of the state: it is also evaluated (as one more case of the
+        // pointwise tie) in the transient state right after every other call
+        if self.rec.enabled && o.panicked.is_none() && !matches!(c, Call::HasReady | Call::Ready) {
+            if let Some(d) = self.nodes[i].driver.as_mut() {
+                if d.last_rd.is_none() {
+                    let o2 = d.exec(&Call::HasReady);
+                    if o2.panicked.is_none() {
+                        let meta2 = format!("has_ready {:?} after-{} run={} ev={}", role, call_kind(&c), self.run_id, self.trace_len);
+                        self.rec.put(&o2, &meta2);
+                    }
+                }
+            }
+        }
         if let Some(p) = &o.panicked {
             // a panicked node is dead: the application would crash
             if self.keep_trace && !self.quiet {
@@ -668,8 +681,18 @@ impl Sim {
             self.with_mon(|m, s| m.on_write(s, i, rv));
         }
         self.nodes[i].unsynced.push_back(rv.clone());
+        // an application that trusts Ready::must_sync: a Ready that does not ask for it is not
+        // fsynced at once (it becomes durable with a later synchronous write, or never if the node crashes)
+        let sync_requested = sync;
+        let sync = sync && (rv.must_sync || self.rng.chance(1, 3));
         if sync {
             while !self.nodes[i].unsynced.is_empty() {
+                self.fsync_one(i);
+            }
+        } else if sync_requested {
+            // a synchronous round whose own Ready needs no fsync: advance() will still report every
+            // earlier Ready persisted, so whatever earlier write asked for must_sync is made durable now
+            while self.nodes[i].unsynced.iter().any(|r| r.must_sync) {
                 self.fsync_one(i);
             }
         }
@@ -812,7 +835,15 @@ impl Sim {
             let (n, m) = self.nodes[i].async_pending.pop_front().unwrap();
             num = n;
             msgs.extend(m);
-            self.fsync_one(i);
+            // everything written up to and including Ready n becomes durable (writes the application
+            // left unsynced because they did not ask for must_sync lie in between)
+            while let Some(front) = self.nodes[i].unsynced.front() {
+                let fnum = front.number;
+                self.fsync_one(i);
+                if fnum == n {
+                    break;
+                }
+            }
         }
         if self.call(i, Call::OnPersistReady(num)).is_some() {
             self.send(i, msgs);
@@ -872,10 +903,10 @@ impl Sim {
     /// term / index / commit values around the receiver's own.
     pub(crate) fn adversarial_msg(&mut self, i: usize) -> Option<Message> {
         let nn = self.nodes.len() as u64;
-        let (id, term, committed, last, first) = {
+        let (id, term, committed, last, first, applied) = {
             let d = self.nodes[i].driver.as_ref()?;
             let r = &d.node.raft;
-            (r.id, r.term, r.raft_log.committed, r.raft_log.last_index(), r.raft_log.first_index())
+            (r.id, r.term, r.raft_log.committed, r.raft_log.last_index(), r.raft_log.first_index(), r.raft_log.applied)
         };
         use MessageType::*;
         let ty = *self.rng.pick(&[MsgAppend, MsgAppend, MsgAppendResponse, MsgAppendResponse, MsgRequestVote, MsgRequestVoteResponse,
@@ -898,6 +929,13 @@ impl Sim {
         m.index = around(&mut self.rng, &[committed, last, first, 0, last + 2]);
         m.commit = around(&mut self.rng, &[committed, last, 0, last + 3]);
         m.commit_term = self.rng.below(term + 2);
+        if matches!(ty, MsgRequestVote | MsgRequestPreVote | MsgRequestVoteResponse | MsgRequestPreVoteResponse) && last > committed && self.rng.chance(1, 2) {
+            // commit information that points at a real entry above the receiver's commit index
+            // (the commit fast-forward on vote traffic then applies)
+            m.commit = committed + 1 + self.rng.below(last - committed);
+            let real = self.nodes[i].driver.as_ref().and_then(|d| d.node.raft.raft_log.term(m.commit).ok()).unwrap_or(0);
+            m.commit_term = real;
+        }
         m.reject = self.rng.chance(1, 3);
         m.reject_hint = around(&mut self.rng, &[committed, last, 0]);
         m.request_snapshot = if self.rng.chance(1, 5) { around(&mut self.rng, &[committed, last]) } else { 0 };
@@ -930,11 +968,17 @@ impl Sim {
         if ty == MsgSnapshot || self.rng.chance(1, 20) {
             let mut sn = Snapshot::default();
             let md = sn.mut_metadata();
-            md.index = around(&mut self.rng, &[committed, last, first, last + 2, 0]);
+            // around every boundary the install conditions look at
+            md.index = *self.rng.pick(&[applied.saturating_sub(1), applied, applied + 1, committed.saturating_sub(1), committed, committed + 1,
+                first.saturating_sub(1), last, last + 1, last + 2, 0]);
             md.term = self.rng.below(term + 2);
             let ids: Vec<u64> = (1..=nn + 1).collect();
             let cs = md.mut_conf_state();
             for x in &ids {
+                if *x == id && self.rng.chance(2, 3) {
+                    cs.voters.push(*x);
+                    continue;
+                }
                 match self.rng.below(6) {
                     0 | 1 | 2 => cs.voters.push(*x),
                     3 => cs.learners.push(*x),
@@ -1027,6 +1071,17 @@ impl Sim {
                         self.call(t, Call::TransferLeader(peer));
                     }
                     self.call(t, Call::ApplyConfChange(cc));
+                }
+                3 if self.rng.chance(1, 2) => {
+                    // the commit index moved by hand (within the log): states in which it runs ahead of
+                    // what is persisted, applied or told to anybody
+                    if let Some(d) = self.nodes[i].driver.as_ref() {
+                        let (c, l) = (d.node.raft.raft_log.committed, d.node.raft.raft_log.last_index());
+                        if l > c {
+                            let k = c + 1 + self.rng.below(l - c);
+                            self.call(i, Call::CommitTo(k));
+                        }
+                    }
                 }
                 1 | 2 => {
                     // a transfer to a voter, then at once a change that demotes / removes / re-adds it
